@@ -41,19 +41,27 @@ rows=tsv(os.path.join(V,"selftest/results/benign-quick.tsv"))
 last={}
 for r in rows:
     if r.get("check") in ("C04","C05","C06","C12","C17","C18"): last[(r["seed"],r["check"])]=r
+prev={}
+pf=os.path.join(V,"selftest/results/benign-quick.prev.tsv")
+if os.path.exists(pf):
+    for r in tsv(pf):
+        if r.get("check") in ("C04","C05","C06","C12","C17","C18"): prev[(r["seed"],r["check"])]=r
 lines=["","| id | written for | what changed | C04 | C05 | C06 | C12 | C17 | C18 |","|---|---|---|---|---|---|---|---|---|"]
-nb=0; bad=0
+nb=0; bad=0; old=0
 for d in sorted(glob.glob(os.path.join(V,"benign/*/meta.json"))):
     m=json.load(open(d)); nb+=1
     cells=[]
     for c in ("C04","C05","C06","C12","C17","C18"):
         r=last.get((m["id"],c))
-        if not r: cells.append("?")
+        if not r and prev.get((m["id"],c)):
+            r=prev[(m["id"],c)]; old+=1
+            cells.append(("0" if r["exit"]=="0" else "**%s**"%r["exit"])+"†"); bad += r["exit"]!="0"
+        elif not r: cells.append("?")
         else:
             cells.append("0" if r["exit"]=="0" else "**%s**"%r["exit"]); bad += r["exit"]!="0"
     lines.append("| %s | %s | %s | %s |" % (m["id"], m["property"], m["what_changed"].replace("|","\\|"), " | ".join(cells)))
 lines.append("")
-lines.append("Exit codes of the six quick checks on each of the %d legitimate changes (0 = no alarm): %d non-zero." % (nb,bad))
+lines.append("Exit codes of the six quick checks on each of the %d legitimate changes (0 = no alarm): %d non-zero. Cells marked † (%d) are from the full 6 x %d regression run before the extensions of rounds 8-9 (`benign-quick.prev.tsv`); after those extensions the owning check and the three checks whose oracles or operations changed (C06, C17, C18) were re-run on every change, all with the shipped-configuration pass." % (nb,bad,old,nb))
 BENIGN="\n".join(lines)
 # ---- budgets from evidence (whatever tier was last run) + results/thorough.log if present
 lines=["","| check | tier of the committed evidence | scenarios | simulated ticks | distinct situations | wall s |","|---|---|---|---|---|---|"]
